@@ -189,7 +189,8 @@ def correction_events(darsia, rng, work, reps):
         probe = rs.rand(H, W, 3)
         cands = []
         cands.append(("TypeCorrection", lambda: darsia.TypeCorrection(rng.choice([np.float32, np.float64, np.uint8])), (rs.rand(H, W, 3)).astype(np.float64)))
-        cands.append(("DriftCorrection", lambda: darsia.DriftCorrection(rs.rand(H, W, 3), config={"active": False, "padding": rng.choice([0.0, 0.1, 0.25]), "roi": (slice(0, 2), slice(1, 3))}), probe))
+        cands.append(("DriftCorrection", lambda: darsia.DriftCorrection(rs.rand(H, W, 3), config={"active": False, "padding": rng.choice([0.1, 0.25]), "roi": (slice(0, 2), slice(1, 3))}), probe))
+        cands.append(("DriftCorrection", lambda: darsia.DriftCorrection(rs.rand(H, W, 3), config={"active": False, "padding": 0.0, "roi": (slice(1, 3), slice(0, 2))}), probe))
         cands.append(("DriftCorrection", lambda: darsia.DriftCorrection(rs.rand(H, W, 3), config={"active": False, "padding": rng.choice([0.1, 0.3]), "roi": np.array([[1, 1], [H - 2, W - 2]])}), probe))
         zero = {"horizontal_bulge": rng.choice([0.0, 1e-3]), "horizontal_center_offset": 0, "vertical_bulge": 0.0, "vertical_center_offset": 0}
         cands.append(("CurvatureCorrection", lambda: darsia.CurvatureCorrection(config={"bulge": dict(zero)}), probe))
